@@ -1,6 +1,6 @@
 (* C18 - Pre-/post-processors run in hierarchy order and affect only what they should.  ONLY statements.
    Model: PyrollLib.Processors, tied to pyroll/core/unit/unit.py by the correspondence run. *)
-From PyrollLib Require Import Processors ProcFacts.
+From PyrollLib Require Import Processors ProcFacts ProcNest ProcNestFacts.
 
 (* for every history of class definitions and registrations: the per-class lists are exactly the
    registrations made on that class since it was defined, in order *)
@@ -31,6 +31,23 @@ Theorem C18_post_processors_do_not_touch_the_unit : forall s c,
   o_ret (solve_obs s c) = o_out (solve_obs s c) ++ procs (walk s (post s) c).
 Proof. exact post_frame. Qed.
 Print Assumptions C18_post_processors_do_not_touch_the_unit.
+
+(* processors are units like any other (ProcNest: a factory answers with nothing or with a processor UNIT of some class, whose own class registrations
+   run around its work - also when it belongs to the class the factory is registered on).  For every state, every class, every nesting depth and every
+   table of answers: the unit solved at depth d - the outer unit or a processor at any depth - is asked for by exactly the factories of the walk over its
+   class, pre then post, each once, in order.  Tied to Unit.solve by the nested correspondence run. *)
+Theorem C18_every_unit_is_asked_for_like_any_other : forall fuel s c d a p q, nsolve fuel s c d = Some (a, p, q) ->
+  own_asks d a = map nf_id (nwalk s (npre s) c) ++ map nf_id (nwalk s (npost s) c).
+Proof. exact every_factory_asked_once. Qed.
+Print Assumptions C18_every_unit_is_asked_for_like_any_other.
+
+(* a factory whose product belongs to the class it is registered on: asked at every depth; a re-entrancy guard that skips the factory while its own
+   product is solved is refuted on the same state (the innermost stage never exists, one processor is lost) *)
+Theorem C18_own_class_product_and_guard_refuted :
+  nsolve 10 stage_state 0 0 = Some ([(1, 0); (1, 1); (1, 2); (2, 2); (2, 1); (2, 0)], [602; 702; 601; 701; 600], []) /\
+  nsolve_guarded 10 [] stage_state 0 0 = Some ([(1, 0); (2, 1); (2, 0)], [601; 701; 600], []).
+Proof. exact own_class_product. Qed.
+Print Assumptions C18_own_class_product_and_guard_refuted.
 
 Definition demo : list op :=
   [NewClass 0 [0]; NewClass 1 [1; 0]; NewClass 2 [2; 0];
